@@ -33,7 +33,10 @@ def run(ctx):
     items += [(list(c), False, False) for c in k2go]
     sim = sem.enum_chains(ctx, 4, ["plain", "go", "then", "helper", "iife"], maxdeco=2, simulate=(3000 if thorough else 400),
                           depth=5, tag="sim")
-    sim = sorted({tuple(c) for c in sim if len(c) >= 3 and any(d == "go" for _, d in c)})
+    # a step skipped on one arm of a branch leaves a nil carrier; dereferencing it on ANOTHER goroutine is a fatal error
+    # of the native process (a panic cannot be recovered from outside its goroutine): such chains are left out
+    sim = sorted({tuple(c) for c in sim if len(c) >= 3 and any(d == "go" for _, d in c)
+                  and not any(d == "then" for _, d in c)})
     rnd.shuffle(sim)
     sim = sim[: (800 if thorough else 60)]
     items += [(list(c), rnd.random() < 0.3, rnd.random() < 0.3) for c in sim]
